@@ -71,7 +71,34 @@ def prepare(tier):  # pylint: disable=unused-argument
     _attrs_classes()
     from simverif.props import c12
     c12.classes()
+    grow_hosts()
     return None
+
+
+_GROW_HOSTS = None
+
+
+def _find_grow_hosts():
+    hosts = []
+    for path in corpus.class_paths():
+        for idx, (raw, _) in enumerate(corpus.objects(path)[:3]):
+            try:
+                obj = corpus.resolve(path).parse_immutable(raw)[0]
+                if grow_all(obj, 1) >= 2:
+                    hosts.append([path, idx])
+                    break
+            except Exception:  # pylint: disable=broad-except
+                continue
+    return hosts
+
+
+def grow_hosts():
+    """Corpus subjects that hold at least two nested byte containers / integer vectors (candidates for in-place
+    growth beyond what an enclosing length prefix can carry).  Found in a forked child (it edits objects)."""
+    global _GROW_HOSTS  # pylint: disable=global-statement
+    if _GROW_HOSTS is None:
+        _GROW_HOSTS = core.call_isolated(_find_grow_hosts)
+    return _GROW_HOSTS
 
 
 def _late_prepare():
@@ -215,6 +242,17 @@ def mutate_in_place(value, depth=0):  # pylint: disable=too-many-return-statemen
                         return 'vector[i].' + what
         return None
     if attr.has(type(value)):
+        done = []
+        # every mutable container / nested message held by the object is edited in place ...
+        for field in attr.fields(type(value)):
+            current = getattr(value, field.name, None)
+            if is_mutable(current):
+                what = mutate_in_place(current, depth + 1)
+                if what:
+                    done.append('%s.%s' % (field.name, what))
+        if done:
+            return '; '.join(done)
+        # ... and when it holds none, one scalar field is assigned another value
         for field in attr.fields(type(value)):
             current = getattr(value, field.name, None)
             replacement = _other_value(current)
@@ -224,10 +262,6 @@ def mutate_in_place(value, depth=0):  # pylint: disable=too-many-return-statemen
                     return 'setattr(%s)' % field.name
                 except Exception:  # frozen or validated  # pylint: disable=broad-except
                     continue
-            if is_mutable(current):
-                what = mutate_in_place(current, depth + 1)
-                if what:
-                    return '%s.%s' % (field.name, what)
         return None
     return None
 
@@ -244,12 +278,46 @@ def _other_value(current):
     if isinstance(current, int):
         return (current + 1, )
     if isinstance(current, datetime.datetime):
-        return (current + datetime.timedelta(days=1), )
+        try:
+            return (current + datetime.timedelta(days=1), )
+        except OverflowError:
+            return (current - datetime.timedelta(days=1), )
     if isinstance(current, bytes):
         return (current + b'\xa5', )
     if isinstance(current, str):
         return (current + 'x', )
     return None
+
+
+def grow_all(obj, amount, depth=0):
+    """Grow every nested byte container / integer vector in place by `amount` items (a caller filling in key
+    material or payloads after parsing): items stay valid one by one while their sum may exceed what the
+    enclosing length prefix can carry.  Returns the number of containers grown."""
+    from cryptoparser.common.base import ArrayBase
+    if depth > 4:
+        return 0
+    grown = 0
+    if isinstance(obj, bytearray):
+        obj.extend(b'\xa5' * amount)
+        return 1
+    if isinstance(obj, ArrayBase):
+        if len(obj) and all(isinstance(i, int) and not isinstance(i, (bool, enum.Enum)) for i in obj):
+            try:
+                obj.extend([obj[0]] * amount)
+                return 1
+            except Exception:  # pylint: disable=broad-except
+                return 0
+        for item in obj:
+            grown += grow_all(item, amount, depth + 1)
+        return grown
+    if isinstance(obj, list):
+        for item in obj:
+            grown += grow_all(item, amount, depth + 1)
+        return grown
+    if attr.has(type(obj)) and not isinstance(obj, enum.Enum):
+        for field in attr.fields(type(obj)):
+            grown += grow_all(getattr(obj, field.name, None), amount, depth + 1)
+    return grown
 
 
 def edit_field(obj, rng, depth=0):
@@ -260,9 +328,27 @@ def edit_field(obj, rng, depth=0):
         return None
     fields = [f for f in attr.fields(type(obj)) if not f.name.startswith('_')]
     rng.shuffle(fields)
+    if depth == 0 and rng.random() < 0.08:
+        amount = rng.choice((20000, 33000, 40000))
+        if grow_all(obj, amount):
+            return 'grow_all(%d)' % amount
     for field in fields:
         value = getattr(obj, field.name, None)
         new = None
+        if type(value) is list and rng.random() < 0.7:  # pylint: disable=unidiomatic-typecheck
+            action = rng.choice(('clear', 'pop', 'append', 'append'))
+            if action == 'clear' and value:
+                del value[:]
+                return '%s.clear()' % field.name
+            if action == 'pop' and value:
+                value.pop()
+                return '%s.pop()' % field.name
+            if value and isinstance(value[0], (int, bytes, str)) and not isinstance(value[0], bool):
+                value.append(value[rng.randrange(len(value))])
+                return '%s.append(copy)' % field.name
+            if not value:
+                value.append(1)
+                return '%s.append(1)' % field.name
         if isinstance(value, (set, frozenset)):
             members = None
             for item in value:
@@ -281,6 +367,24 @@ def edit_field(obj, rng, depth=0):
                 value.add(member)
                 return '%s.add(%s)' % (field.name, member.name)
             continue
+        if isinstance(value, bytearray) and rng.random() < 0.5:
+            grow = rng.choice((1, 300, 70000))
+            value.extend(b'\xa5' * grow)
+            return '%s.extend(%d bytes)' % (field.name, grow)
+        from cryptoparser.common.base import ArrayBase
+        if isinstance(value, ArrayBase) and len(value) and rng.random() < 0.6:
+            inner = value[rng.randrange(len(value))]
+            if attr.has(type(inner)) and not isinstance(inner, enum.Enum):
+                what = edit_field(inner, rng, depth + 1)
+                if what:
+                    return '%s[i].%s' % (field.name, what)
+            if isinstance(inner, int) and not isinstance(inner, (bool, enum.Enum)):
+                grow = rng.choice((1, 40, 70000))
+                try:
+                    value.extend([inner] * grow)
+                    return '%s.extend(%d items)' % (field.name, grow)
+                except Exception:  # refused by the vector's bounds  # pylint: disable=broad-except
+                    pass
         other = _other_value(value)
         if isinstance(value, enum.Enum):
             members = [m for m in type(value) if m is not value]
@@ -395,6 +499,11 @@ def generate(rng, index, tier, extra):  # pylint: disable=unused-argument
         spec = ['corpus', rng.choice(paths), rng.randrange(64)]
     calls = [rng.choice(('compose', 'compose', 'as_json', 'as_markdown', 'ja3', 'hassh', 'key_tag', 'fingerprints', '_asdict'))
              for _ in range(rng.choice((2, 3, 4, 6)))]
+    if grow_hosts() and rng.random() < 0.3:
+        # in-place growth of nested key material / payloads until the enclosing prefix overflows: composing fails
+        path, idx = rng.choice(grow_hosts())
+        return {'kind': 'observe', 'subject': ['corpus', path, idx], 'calls': ['compose'] + calls, 'edits': [],
+                'grow': rng.choice((20000, 33000, 40000, 70000))}
     return {'kind': 'observe', 'subject': spec, 'calls': calls, 'edits': [rng.getrandbits(32) for _ in range(rng.choice((1, 1, 2, 3)))]}
 
 
@@ -404,7 +513,7 @@ def needs_isolation(doc):
     """Runs that edit objects in place execute in a forked child: a shared default (the very defect
     this property is about) would otherwise leak from one run into the next."""
     return doc['kind'] in ('defaults', 'buffer') or (
-        doc['kind'] == 'observe' and (doc['subject'][0] != 'corpus' or bool(doc.get('edits'))))
+        doc['kind'] == 'observe' and (doc['subject'][0] != 'corpus' or bool(doc.get('edits')) or bool(doc.get('grow'))))
 
 
 def execute(doc):
@@ -454,6 +563,12 @@ def _exec_observe(doc, res):
             edits.append(what)
             res.event(name, 'edit', what)
             res.stats['probe.object_edited_before_observing'] += 1
+    if doc.get('grow'):
+        grown = grow_all(obj, doc['grow'])
+        if grown:
+            edits.append('grow_all(%d) x%d' % (doc['grow'], grown))
+            res.event(name, 'edit', edits[-1])
+            res.stats['probe.nested_items_grown_in_place'] += 1
     snapshot = canon(obj)
     available = _observers_of(obj)
     first = {}
@@ -515,6 +630,27 @@ def _first_difference(left, right, path='obj'):
         if a != b:
             return _first_difference(a, b, '%s[%d]' % (path, idx))
     return 'no difference found'
+
+
+def _shared_mutable(left, right, depth=0):
+    """Class name of the first mutable object that two object graphs hold in common (by identity), or None."""
+    from cryptoparser.common.base import ArrayBase
+    if depth > 8:
+        return None
+    if left is right and is_mutable(left):
+        return type(left).__name__
+    pairs = []
+    if attr.has(type(left)) and type(left) is type(right) and not isinstance(left, enum.Enum):
+        pairs = [(getattr(left, f.name, None), getattr(right, f.name, None)) for f in attr.fields(type(left))]
+    elif isinstance(left, (list, tuple, ArrayBase)) and isinstance(right, (list, tuple, ArrayBase)):
+        pairs = list(zip(left, right))
+    elif isinstance(left, dict) and isinstance(right, dict):
+        pairs = [(left[k], right[k]) for k in left if k in right]
+    for a, b in pairs:
+        found = _shared_mutable(a, b, depth + 1)
+        if found:
+            return found
+    return None
 
 
 def _exec_buffer(doc, res):  # pylint: disable=too-many-branches,too-many-statements
@@ -593,7 +729,7 @@ def _exec_buffer(doc, res):  # pylint: disable=too-many-branches,too-many-statem
             return
         # nor may it change a second object parsed from the same bytes
         if canon(reference) != snapshot:
-            res.violation((PROPERTY, 'objects-share-state', name),
+            res.violation((PROPERTY, 'objects-share-state', _shared_mutable(obj, reference) or name),
                           'editing one parsed message never changes another parsed from the same bytes',
                           '%s: %s' % (edited, _first_difference(snapshot, canon(reference))))
             return
